@@ -172,6 +172,11 @@ fn subjects(ctx: &Ctx, env: &Env) -> Vec<Subject> {
         let main = RawHeader::layout(&[(1000, Val::str("n")), (1003, Val::Int32(vec![7])), (1004, Val::i18n(&["s"]))]);
         add(format!("hand-encoded-pad{}", pad), assemble(&RawLead::new("n"), &sig, 0, &main, b"payload").0);
     }
+    // rpmbuild-made packages (their headers have regions, legacy signature tags and other paddings than the builder's)
+    for rel in ["test_assets/fixture_packages/rpm-empty-0-0.x86_64.rpm", "test_assets/fixture_packages/rpm-empty-0-0.src.rpm", "test_assets/ima_signed.rpm"] {
+        let b = std::fs::read(ctx.asset(rel)).unwrap_or_else(|e| crate::ctx::machinery(&format!("{}: {}", rel, e)));
+        add(format!("asset {}", rel.rsplit('/').next().unwrap()), b);
+    }
     // packages without a single payload byte (the file ends where the payload would start)
     {
         let sig = RawHeader::new(vec![RawEntry { tag: 1004, ty: 7, offset: 0, count: 9 }], (0..9u8).collect());
